@@ -406,6 +406,13 @@ func dhcpPersistence(c *core.Ctx, alpha []dEvent, hist []int, o dhcpOpts, r *dhc
 			if !c.Thorough() {
 				step = 2
 			}
+			// only the DHCP handler restarts: the application's capture decisions are still in force when the damaged
+			// file is loaded (the loader treats the leases of captured stations differently)
+			for k, cp := range r.capEnd {
+				if cp {
+					s.Capture(dClients[k])
+				}
+			}
 			intact, _, _ := loadImage(s, o.mode, final, true)
 			inFile := fileBindings(final) // every (client id, MAC, IP) entry written in the original file, whatever its state or expiry
 			inIntact := func(x binding) bool {
